@@ -115,7 +115,7 @@ ZERO_PARAM_MODELS = [('ising', (1.0, 0.0, 0.0)), ('ising', (0.7, 0.0, 0.4)), ('i
 
 PROFILES = ['one', 'random', 'max', 'over', 'disjoint', 'deficient']
 LAYOUTS = ['zero', 'sorted', 'unsorted', 'repeated', 'pairs']
-KINDS = ['complex', 'real', 'int', 'float32']
+KINDS = ['complex', 'real', 'int', 'float32', 'mixed']
 
 
 def _qd(rng, d, layout):
@@ -153,7 +153,7 @@ def mps_case(ctx, idx, rng):
     zero = np.linalg.norm(old['dense']) == 0
     ctx.case(('mps', f'L{min(L, 3)}', f'd{min(d, 3)}', prof, layout, kind if prof != 'deficient' else 'complex', mode, 'zero-state' if zero else 'nonzero', struct),
              nontrivial=not zero, sample={'qd': psi.qd, 'qD': psi.qD, 'mode': mode, 'A0': psi.A[0]}, info={'qd': old['qd'], 'qD': old['qD'], 'A': old['A'], 'mode': mode})
-    nrm = psi.orthonormalize(mode)
+    nrm = psi.orthonormalize(mode) if not (mode == 'left' and idx % 4 == 0) else psi.orthonormalize()      # default mode is 'left'
     orth_post(ctx, old, psi, nrm, mode, False)
     if not zero and not ctx._case_failed:
         # second call on the already canonical object: factor 1, nothing changes in meaning
@@ -171,7 +171,7 @@ def mpo_case(ctx, idx, rng):
     while d ** (2 * L) > 4096 * 4:
         L -= 1
     layout = LAYOUTS[idx % len(LAYOUTS)]
-    kind = ('complex', 'real', 'int')[(idx // 5) % 3]
+    kind = ('complex', 'real', 'int', 'mixed')[(idx // 5) % 4]
     mode = ('left', 'right')[idx % 2]
     qd = _qd(rng, d, layout)
     src = str(rng.choice(['random', 'random', 'model', 'over', 'disjoint', 'zero-param-model']))
@@ -203,7 +203,7 @@ def mpo_case(ctx, idx, rng):
     zero = np.linalg.norm(old['dense']) == 0
     ctx.case(('mpo', f'L{L}', f'd{d}', src, layout, kind, mode, 'zero-op' if zero else 'nonzero', struct), nontrivial=not zero,
              sample={'qd': op.qd, 'qD': op.qD, 'mode': mode}, info={'qd': old['qd'], 'qD': old['qD'], 'A': old['A'], 'mode': mode})
-    nrm = op.orthonormalize(mode)
+    nrm = op.orthonormalize(mode) if not (mode == 'left' and idx % 4 == 0) else op.orthonormalize()
     orth_post(ctx, old, op, nrm, mode, True)
 
 
